@@ -238,4 +238,18 @@ PROPS["C09"] = {
     "assumptions": ["finite-float text round trip is strconv's (named hypothesis in DESIGN §6); float32 overflow threshold is modelled exactly except within half an ulp of the boundary (double rounding)"],
 }
 
+PROPS["C04"] = {
+    "parts": [{"name": "bind", "pkg": "c04", "chk": "chk_c04"}],
+    "reasons": {"bind": {"1": "the request message depends on which protobuf types are registered in the bridge process (clean vs poisoned global registry)",
+                         "2": "a value that does not parse produced something other than InvalidArgument (or Internal for a body path that does not resolve)",
+                         "3": "a query parameter addressing a field already bound by the body or a path variable changed the request message",
+                         "4": "the transcoder panicked"}},
+    "rule": "schemas built at run time (never registered globally; well-known types as COPIES with the same full names, as reflection delivers them): one rich schema (every scalar kind, enum, lists, maps with 4 key kinds, nested messages 3 deep, two oneofs incl. a message member, proto3 optional, 8 wrapper types, FieldMask, json_name variants) and random small schemas; per case a body binding ('', '*', a scalar / list / map / message / nested field, unresolvable paths), 0-4 path variables (nested, inside the body field, sharing names at different depths), 0-5 query keys (proto and JSON names, map brackets, keys under bound prefixes, unknown and malformed keys), valid and invalid text forms from per-kind boundary pools, 1-3 bodies as repeated Transcode calls or through the stream decoder; each request runs with a clean global registry, again after conflicting types with the same full names were registered, and once more without the query keys that address bound fields",
+    "level_text": "Coq theorems over ALL schemas, bindings and requests of the model: a path variable's parsed value is what ends up in the message whatever body and query say (precedence), the filter is exactly bound-prefix, bound query keys are ignored, populate/query frame lemmas (only the addressed field path changes), body '*' ignores the query, failures are InvalidArgument (Internal only for an unresolvable body path), integer and enum text forms are exact (no wrap-around; pre-repair enum parser refuted). Tied to the code by the differential harness (model = code on every case, in both registry states).",
+    "level_note": "Trusted: Coq kernel, extraction, modelrun, Go harness; protojson for whole-message bodies (the model covers the canonical subset the harness generates), encoding/json, strconv, net/url query decoding, dynamicpb. Timestamp / Duration / Value / Struct text forms are not modelled (time.Parse, protojson).",
+    "design_ref": "DESIGN.md §3 C04",
+    "assumptions": ["Go map iteration order over path variables and query keys: requests in which two distinct keys address the same field or the same oneof are order dependent in the code and are not generated",
+                    "a query parameter that is a strict PREFIX of a bound path (wrapper field wi vs bound wi.value) or that descends through a oneof whose other member is bound is outside the frame theorems' hypothesis (indep) - it is accepted by the code and by the model alike"],
+}
+
 NOT_APPLICABLE = {}
